@@ -1,7 +1,10 @@
 #!/usr/bin/env python3
 """Confirm an independently written breaking change and run the checks against it.
 
-usage: seedcheck.py /tmp/seed-out/C01-a [--keep]
+usage: seedcheck.py /tmp/seed-out/C01-a
+       SEED_PHASE=validate  only steps 1-3 (sequential: the suite uses fixed ports), result cached in $SEED_CACHE
+       SEED_PHASE=checks    only step 4 (may run in parallel), result cached
+       SEED_PHASE=assemble  step 5 from the two cached results
 
 1. fresh scratch worktree of /repo (removed afterwards)
 2. demonstration passes on the unchanged tree
@@ -31,9 +34,30 @@ def main():
     if rc != 0:
         print(out); sys.exit(2)
     res = {"id": sid, "property": prop}
+    phase = os.environ.get("SEED_PHASE", "all")
+    cache = os.environ.get("SEED_CACHE", "/tmp/seed-res2")
+    os.makedirs(cache, exist_ok=True)
+    demo_rel = meta["demo_file"]
+    demo_src = os.path.join(src, os.path.basename(demo_rel))
+    if phase == "assemble":
+        subprocess.run(["git", "-C", "/repo", "worktree", "remove", "--force", wt], stdout=subprocess.DEVNULL, stderr=subprocess.DEVNULL)
+        res.update(json.load(open(os.path.join(cache, sid + ".validate.json"))))
+        res.update(json.load(open(os.path.join(cache, sid + ".checks.json"))))
+        return finish(res, meta, src, sid, demo_src, prop)
+    if phase == "checks":
+        wt2 = wt + "-chk"
+        subprocess.run(["git", "-C", "/repo", "worktree", "remove", "--force", wt], stdout=subprocess.DEVNULL, stderr=subprocess.DEVNULL)
+        subprocess.run(["git", "-C", "/repo", "worktree", "remove", "--force", wt2], stdout=subprocess.DEVNULL, stderr=subprocess.DEVNULL)
+        sh(["git", "-C", "/repo", "worktree", "add", "--detach", wt2, "HEAD"], "/")
+        try:
+            rc, out = sh(["git", "apply", os.path.join(src, "patch.diff")], wt2)
+            r2 = {"patch_applies_for_checks": rc == 0}
+            r2.update(run_checks(wt2, prop))
+            json.dump(r2, open(os.path.join(cache, sid + ".checks.json"), "w"), indent=1)
+            return dict(res, **r2, valid=None)
+        finally:
+            subprocess.run(["git", "-C", "/repo", "worktree", "remove", "--force", wt2], stdout=subprocess.DEVNULL, stderr=subprocess.DEVNULL)
     try:
-        demo_rel = meta["demo_file"]
-        demo_src = os.path.join(src, os.path.basename(demo_rel))
         shutil.copy(demo_src, os.path.join(wt, demo_rel))
         demo_cmd = shlex.split(meta["demo_run"])
         rc, out = sh(demo_cmd, wt)
@@ -59,21 +83,33 @@ def main():
         res["existing_suite_passes"] = rc == 0
         if rc != 0:
             res["suite_tail"] = out[-600:]
-        # run the checks on the patched scratch tree
-        checks = {}
-        ids = [c["property_id"] for c in json.load(open("/verif/MANIFEST.json"))["checks"]]
-        only = os.environ.get("SEED_ONLY")
-        for pid in ids:
-            if only and pid not in only.split(","):
-                continue
-            rc, out = sh(["/verif/bin/qfsa", "check", pid, "--no-evidence"], "/verif", env=dict(ENV, QFSA_REPO=wt, QFSA_VERIF="/verif"))
-            lines = [l for l in out.splitlines() if l.startswith("VIOLATED") or l.startswith("UNDECIDED")]
-            checks[pid] = {"exit": rc, "reports": [l[:300] for l in lines[:4]]}
-        res["checks"] = checks
-        res["caught_by"] = sorted(p for p, v in checks.items() if v["exit"] != 0)
-        res["caught_by_own_property"] = prop in res["caught_by"]
+        if phase == "validate":
+            json.dump({k: res.get(k) for k in ("demo_passes_without_change", "patch_applies", "builds", "demo_fails_with_change", "existing_suite_passes", "note", "suite_tail")}, open(os.path.join(cache, sid + ".validate.json"), "w"), indent=1)
+            return dict(res, valid=None)
+        res.update(run_checks(wt, prop))
     finally:
         subprocess.run(["git", "-C", "/repo", "worktree", "remove", "--force", wt], stdout=subprocess.DEVNULL, stderr=subprocess.DEVNULL)
+    return finish(res, meta, src, sid, demo_src, prop)
+
+
+def run_checks(wt, prop):
+    # run the checks on the patched scratch tree
+    checks = {}
+    ids = [c["property_id"] for c in json.load(open("/verif/MANIFEST.json"))["checks"]]
+    only = os.environ.get("SEED_ONLY")
+    for pid in ids:
+        if only and pid not in only.split(","):
+            continue
+        rc, out = sh(["/verif/bin/qfsa", "check", pid, "--no-evidence"], "/verif", env=dict(ENV, QFSA_REPO=wt, QFSA_VERIF="/verif"))
+        lines = [l for l in out.splitlines() if l.startswith("VIOLATED") or l.startswith("UNDECIDED")]
+        checks[pid] = {"exit": rc, "reports": [l[:300] for l in lines[:4]]}
+    r = {"checks": checks}
+    r["caught_by"] = sorted(p for p, v in checks.items() if v["exit"] != 0)
+    r["caught_by_own_property"] = prop in r["caught_by"]
+    return r
+
+
+def finish(res, meta, src, sid, demo_src, prop):
     valid = res.get("demo_passes_without_change") and res.get("patch_applies") and res.get("builds") and res.get("demo_fails_with_change") and res.get("existing_suite_passes")
     res["valid"] = bool(valid)
     if valid:
